@@ -956,6 +956,10 @@ def verify_derivation(obs, world, cname, dname, contract, pid, timeout=20000, it
             if getattr(contract, "result_is_self", False) and (focus_loop in (None, 0)) and ("view" in want):
                 obs.append(Ob(f"{pid}/{base}/returns-the-graph-itself#path{i}", kind, DISCHARGED if R is g1 else FAILED, "ast",
                               detail="" if R is g1 else "the in-place operation returned another object"))
+            if "wf" in want and focus_loop in (None, 0):
+                autos = [f_ for f_, val_ in R.fields.items() if getattr(val_, "auto", False)]
+                obs.append(Ob(f"{pid}/{base}/result-wf/tables-are-plain-dicts#path{i}", kind, FAILED if autos else DISCHARGED, "ast",
+                              detail=f"{autos} of the result is a collections.defaultdict: a look-up of an absent key through the public views would insert it" if autos else ""))
             vR = GM.View(h1, R)
             spec = contract.spec(v0, sym, cname)
             if "view" in want:
